@@ -244,6 +244,27 @@ impl Translator {
             return Ok(None);
         }
         if !tail {
+            // `if c { return Err(..); }` (no else) in a value-producing block: a monadic failure
+            if let Expr::If(ife) = e {
+                if ife.else_branch.is_none() && ife.then_branch.stmts.len() == 1 && !matches!(&*ife.cond, Expr::Let(_)) {
+                    let ret_expr = match &ife.then_branch.stmts[0] {
+                        Stmt::Expr(Expr::Return(r), _) => r.expr.clone(),
+                        _ => None,
+                    };
+                    if let Some(re) = ret_expr {
+                        let cond = self.tr_cond(&ife.cond)?;
+                        let rt = self.ret_ty.clone();
+                        let f = self.tr_expr(&re, Some(&rt))?;
+                        if f.kind != Kind::Pure && f.ty == Ty::Unknown {
+                            let v = self.mk_if(cond, Val { ty: Ty::Unit, ..f }, Val::pure("tt", Ty::Unit))?;
+                            self.push_bind("_".into(), &v);
+                            // the remaining statements follow normally
+                            let v2 = self.tr_stmts(rest, expected, tail)?;
+                            return Ok(Some(v2));
+                        }
+                    }
+                }
+            }
             return self.err(e.span(), "early return in a non-tail block").map(|_: ()| None);
         }
         match e {
